@@ -1220,7 +1220,7 @@ const FRAG_MODES: &[&str] = &[
 ];
 const FRAG_CALLBACKS: &[&str] = &[
     "abc", "z", "#", "12", "123", "7", "!", "!!", "?", " ", "\n", "  ", "/*", "*/", "/* x */", "é€𝔸", "é", "€", "𝔸", "αβγ", "ω",
-    "//", "// x\n", "/", "*", "a1b2", "#é",
+    "//", "// x\n", "/", "*", "a1b2", "#é", "<<", "<< ab ?!", "?!", "<<a",
 ];
 const FRAG_ANCHORS: &[&str] = &[
     "x", "xx", "xxx", "y", "yy", "z", "if", "if_", "iff", "i", "abc", "_", " ", "\t", "\n", "#", "# c", "#c\n", "12", "end", "endx", "en", "xy", "yx\n", "y\n", "é",
